@@ -166,8 +166,29 @@ func TestQVFrameOps(t *testing.T) {
 			{"sorted by u desc, slice(1,4)", bf.Sort(qframe.Order{Column: "u", Reverse: true}).Slice(1, 4), base.rows([]int{uidx[3], uidx[2], uidx[1]})},
 			{"empty", bf.Slice(2, 2), base.rows(nil)},
 		}
+		var extra []derived
+		{
+			// projections that move columns, followed by operations that overwrite an existing column
+			sel := []string{"s", "u", "i", "e", "f"}
+			sm := mframe{n: base.n}
+			for _, c := range sel {
+				mc, _ := base.col(c)
+				sm.cols = append(sm.cols, mc)
+			}
+			ic, _ := base.col("i")
+			extra = append(extra, derived{"select(s,u,i,e,f) then copy i onto s", bf.Select(sel...).Copy("s", "i"), modelSet(sm, "s", ic)})
+			dm := mframe{n: base.n}
+			for _, c := range base.cols {
+				if c.name != "i" && c.name != "f" {
+					dm.cols = append(dm.cols, c)
+				}
+			}
+			jc, _ := base.col("j")
+			extra = append(extra, derived{"drop(i,f) then rownums onto b then copy j onto t", bf.Drop("i", "f").WithRowNums("b").Copy("t", "j"),
+				modelSet(modelApply(dm, allTrue(base.n), "b", "int", func(r int) mcell { return mcell{i: r} }), "t", jc)})
+		}
 		// snapshots for the persistence check (C01): every frame is re-inspected at the end
-		for _, d := range frames {
+		for _, d := range append(append([]derived{}, frames...), extra...) {
 			rp.guard("C09 observers", d.name, func() {
 				if !rp.expect("C09 views on derived frame", d.name, d.f, d.m) {
 					return
@@ -573,6 +594,21 @@ func TestQVFrameOps(t *testing.T) {
 					{"empty And", d.f.Filter(qframe.And())},
 					{"empty Or", d.f.Filter(qframe.Or())},
 					{"Not of invalid", d.f.Filter(qframe.Not(qframe.Filter{Column: "nope", Comparator: "=", Arg: 1}))},
+					{"Not of unknown comparator", d.f.Filter(qframe.Not(qframe.Filter{Column: "i", Comparator: "~~", Arg: 1}))},
+					{"Inverse with wrong argument type", d.f.Filter(qframe.Filter{Column: "i", Comparator: "<", Arg: "x", Inverse: true})},
+					{"Inverse with wrong argument type for =", d.f.Filter(qframe.Filter{Column: "s", Comparator: "=", Arg: 1, Inverse: true})},
+					{"Not of comparator of wrong function type", d.f.Filter(qframe.Not(qframe.Filter{Column: "s", Comparator: func(x int) bool { return true }}))},
+					{"Or of valid and negated invalid", d.f.Filter(qframe.Or(qframe.Filter{Column: "i", Comparator: ">", Arg: 0}, qframe.Filter{Column: "i", Comparator: "like", Arg: "x", Inverse: true}))},
+					{"And of valid and invalid", d.f.Filter(qframe.And(qframe.Filter{Column: "i", Comparator: ">", Arg: 0}, qframe.Filter{Column: "f", Comparator: "in", Arg: 1.0}))},
+					{"GroupBy unknown column", func() qframe.QFrame {
+						g := d.f.GroupBy(groupby.Columns("nope"))
+						if g.Err != nil {
+							return qframe.QFrame{Err: g.Err}
+						}
+						return g.Aggregate(qframe.Aggregation{Fn: "sum", Column: "i"})
+					}()},
+					{"Aggregate unknown column", d.f.GroupBy(groupby.Columns("j")).Aggregate(qframe.Aggregation{Fn: "sum", Column: "nope"})},
+					{"Aggregate unknown function", d.f.GroupBy(groupby.Columns("j")).Aggregate(qframe.Aggregation{Fn: "nosuch", Column: "i"})},
 					{"Sort unknown column", d.f.Sort(qframe.Order{Column: "nope"})},
 					{"Distinct unknown column", d.f.Distinct(groupby.Columns("nope"))},
 					{"Apply unknown source", d.f.Apply(qframe.Instruction{Fn: func(x int) int { return x }, DstCol: "n", SrcCol1: "nope"})},
@@ -585,9 +621,6 @@ func TestQVFrameOps(t *testing.T) {
 				}
 				for _, b := range bad {
 					rp.evals++
-					if d.name == "empty" && b.name == "Distinct unknown column" {
-						continue // Distinct on an empty frame returns the frame before looking at the columns
-					}
 					if b.f.Err == nil {
 						rp.fail("C10 invalid use accepted: "+b.name, d.name)
 						continue
@@ -621,8 +654,45 @@ func TestQVFrameOps(t *testing.T) {
 				}
 			})
 		}
-		// ---- C01: every frame obtained earlier is unchanged after all of the above ----
+		// ---- C01: frames derived from a common parent do not disturb each other (shared column lists, maps, indices) ----
 		for _, d := range frames {
+			d := d
+			rp.guard("C01 siblings", d.name, func() {
+				all := allTrue(d.m.n)
+				parent := d.f.WithRowNums("p0").Copy("p1", "i")
+				pm := modelSet(modelApply(d.m, all, "p0", "int", func(r int) mcell { return mcell{i: r} }), "p1", func() mcol { c, _ := d.m.col("i"); return c }())
+				iv, _ := parent.IntView("i")
+				before := append([]int(nil), iv.Slice()...)
+				c1 := parent.Apply(qframe.Instruction{Fn: 1, DstCol: "x"})
+				m1 := modelApply(pm, all, "x", "int", func(r int) mcell { return mcell{i: 1} })
+				if !rp.expect("C06 Apply onto a derived parent", d.name, c1, m1) {
+					return
+				}
+				// siblings and descendants of every kind
+				c2 := parent.Apply(qframe.Instruction{Fn: "k", DstCol: "y"})
+				_ = parent.Copy("z", "s")
+				_ = parent.WithRowNums("w")
+				_ = parent.Eval("v", qframe.Expr("+", types.ColumnName("i"), 1))
+				_ = parent.Sort(qframe.Order{Column: "i"}).Apply(qframe.Instruction{Fn: 2, DstCol: "q"})
+				_ = parent.Filter(qframe.Filter{Column: "i", Comparator: ">", Arg: 0}).Copy("i", "j")
+				_ = parent.Drop("p0").Copy("p0", "j")
+				_ = parent.Select("p1", "i").Apply(qframe.Instruction{Fn: func(x int) int { return -x }, DstCol: "i", SrcCol1: "i"})
+				_ = c1.Apply(qframe.Instruction{Fn: 3, DstCol: "x"})
+				_ = c1.Copy("x2", "x")
+				_ = parent.GroupBy(groupby.Columns("j")).Aggregate(qframe.Aggregation{Fn: "sum", Column: "i"})
+				_ = parent.Distinct(groupby.Columns("j"))
+				rp.expect("C01 frame changed by operations on its parent or siblings", d.name+" (child re-inspected)", c1, m1)
+				rp.expect("C01 frame changed by operations on its children", d.name+" (parent re-inspected)", parent, pm)
+				rp.expect("C01 frame changed by operations on its parent or siblings", d.name+" (second child)", c2, modelApply(pm, all, "y", "string", func(r int) mcell { return mcell{s: "k"} }))
+				after := iv.Slice()
+				rp.evals++
+				if fmt.Sprint(before) != fmt.Sprint(after) {
+					rp.fail("C01 view obtained earlier changed", fmt.Sprintf("%s: %v -> %v", d.name, before, after))
+				}
+			})
+		}
+		// ---- C01: every frame obtained earlier is unchanged after all of the above ----
+		for _, d := range append(append([]derived{}, frames...), extra...) {
 			rp.guard("C01 persistence", d.name, func() {
 				rp.expect("C01 earlier frame changed", d.name+" (re-inspected after all operations)", d.f, d.m)
 			})
@@ -724,6 +794,14 @@ func TestQVFrameOps(t *testing.T) {
 	if len(rp.failed) > 0 {
 		t.Fail()
 	}
+}
+
+func allTrue(n int) []bool {
+	out := make([]bool, n)
+	for i := range out {
+		out[i] = true
+	}
+	return out
 }
 
 func typeOf(m mframe, col string) string {
